@@ -557,6 +557,48 @@ def check_setop(case):
     return out
 
 
+# ---- enumerated family: WITH [RECURSIVE] -----------------------------------------------------------------------------------------
+
+
+def cte_cases():
+    for cls in CTXS:
+        for body in ("plain", "setop", "setop_joined"):
+            for selfref in (False, True):
+                if body == "plain" and selfref:
+                    continue  # a body without a set operation cannot be recursive in any dialect: not a meaningful statement
+                yield {"family": "cte", "cls": cls, "body": body, "selfref": selfref}
+
+
+def check_cte(case):
+    """RECURSIVE is written exactly when a CTE body refers to the CTE's own name - and never under SQL Server / Oracle, which have no such keyword"""
+    import pypika_tortoise as P
+
+    cls = case["cls"]
+    Q = prog.query_cls(cls)
+    t, u = P.Table("t"), P.Table("u")
+    own = P.Table("cname")
+    if case["body"] == "plain":
+        body = Q.from_(own if case["selfref"] else t).select("a")
+    elif case["body"] == "setop":
+        body = Q.from_(t).select(t.a).union_all(Q.from_(own if case["selfref"] else u).select("a"))
+    else:
+        other = own if case["selfref"] else u
+        body = Q.from_(t).select(t.a).union_all(Q.from_(t).join(other).on(t.a == other.a).select(t.a))
+    try:
+        sql = Q.with_(body, "cname").from_(P.AliasedQuery("cname")).select("*").get_sql(prog.sql_context(cls))
+    except Exception as e:
+        return [(mksig("cte", cls, "raises", type(e).__name__), repr(e))]
+    toks = lex.lex(sql, cls)
+    has = len(toks) > 1 and toks[0].kind == "word" and toks[0].value == "WITH" and toks[1].kind == "word" and toks[1].value == "RECURSIVE"
+    want = case["selfref"] and cls not in ("mssql", "oracle")
+    if has and not want:
+        why = "no_such_keyword" if cls in ("mssql", "oracle") else "not_recursive"
+        return [(mksig("wellformed", "mssql_oracle" if why == "no_such_keyword" else "any", "with_recursive", why), "%s: %r" % (why, sql))]
+    if want and not has:
+        return [(mksig("wellformed", "any", "with_recursive", "missing"), "the body of the CTE refers to the CTE itself, yet RECURSIVE is not written: %r" % sql)]
+    return []
+
+
 def _clause_pair(detail):
     parts = detail.split(" in ")[0].split()
     return "_".join(p for p in parts if p.isupper())[:40]
@@ -571,6 +613,8 @@ def _near(msg):
 
 
 def check_case(case):
+    if case.get("family") == "cte":
+        return check_cte(case)
     if case.get("family") == "setop":
         return check_setop(case)
     return check(case)
@@ -578,6 +622,8 @@ def check_case(case):
 
 def valid_case(case):
     try:
+        if case.get("family") == "cte":
+            return case in list(cte_cases())
         if case.get("family") == "setop":
             return case["cls"] in CTXS and case["op"] in SETOPS and case["optail"] in (0, 1, 2, 3, 4) and case["tail"] in SETOP_TAILS
         p = case["program"]
@@ -617,6 +663,10 @@ def run_shard(shard):
         for case in setop_cases():
             col.case(case, bool(case["tail"]), classes=("family:setop", "cls:" + case["cls"]))
             for sig, detail in check_setop(case):
+                col.violation(sig, case, detail)
+        for case in cte_cases():
+            col.case(case, True, classes=("family:cte",))
+            for sig, detail in check_cte(case):
                 col.violation(sig, case, detail)
         col.notes["setop_family"] = "enumerated completely"
         return col
